@@ -40,7 +40,11 @@ fn gen(ch: &mut Ch, thorough: bool) -> Option<Case> {
         }
         combo = combo.with(t, a);
     }
-    let ts = container_spec(container, ctx, FieldSpec::cfg(combo, KeyForm::Method), style);
+    let mut ts = container_spec(container, ctx, FieldSpec::cfg(combo, KeyForm::Method), style);
+    // the enum container also with explicit discriminants in decreasing order
+    if ts.is_enum {
+        ts.discr = ch.pick(3) as u8;
+    }
     Some(Case { gen: "laws", vector: ch.vector(), ts, derived, entry })
 }
 
